@@ -553,6 +553,7 @@ pub fn push_sweep(exps: &mut Vec<Exp>, depth: usize) {
         seed_funded(),
         seed_band_liquidatable(),
         seed_vault_drained(),
+        seed_vault_drained_shorts(),
         seed_funding_exceeds_margin(),
     ];
     for c in covering_configs() {
@@ -1034,6 +1035,34 @@ fn step_c07(m: &EngModel, w: &mut World, s: &EngSt, a: &Act, out: &mut StepOut) 
         if o_rich.ok {
             let (ifa, eng) = (w.ifund.to_string(), w.engine.to_string());
             let needed: u128 = crate::obs::transfers(w, false).iter().filter(|x| x.from == ifa && x.to == eng).map(|x| x.amt).sum();
+            // full liquidation: the shortfall by reference = bad debt not yet prepaid (what the position lost beyond its
+            // margin, plus the part of the liquidator's fee its margin cannot pay) + what the vault, after that, still
+            // lacks to pay the liquidator. A liquidation that asks the fund for more than this fails a fund that holds
+            // exactly the shortfall.
+            let mut needed = needed;
+            if let Act::Liq { t, v, .. } = a {
+                if w.pos(*v, t).is_none() {
+                    let p0 = so.pre_t(*v, t);
+                    if let (Some(pp), true) = (&p0.pos, p0.out_spot >= 0) {
+                        let cfg = w.live_cfg(*v);
+                        let fee = p0.out_spot * cfg.liq_fee as i128 / di() / 2;
+                        let rm = pp.margin.u128() as i128 + pnl_of(pp, p0.out_spot) - owed_of(pp, so.pre.vamms[*v].cum);
+                        let bad = (fee - rm).max(0).min(fee + (-rm).max(0));
+                        let prepaid = so.pre.prepaid_bad_debt as i128;
+                        let delta = (bad - prepaid).max(0);
+                        let vault = so.pre.balances[&eng] as i128;
+                        let need_ref = (delta + (fee - vault - delta).max(0)) as u128;
+                        if need_ref < needed {
+                            out.tag("c07:exact-fund-twin-reference-below-measured");
+                            needed = need_ref;
+                        } else if need_ref == needed {
+                            out.tag("c07:exact-fund-twin-reference-equals-measured");
+                        } else {
+                            out.tag("c07:exact-fund-twin-reference-above-measured");
+                        }
+                    }
+                }
+            }
             w.restore(&s.snap);
             if w.set_ifund_balance(needed) {
                 let o_exact = apply(w, a);
@@ -1043,8 +1072,8 @@ fn step_c07(m: &EngModel, w: &mut World, s: &EngSt, a: &Act, out: &mut StepOut) 
                     out.viol(
                         format!("C07:liquidation-refused-though-fund-covers-shortfall:{}", err_class(&o_exact.err)),
                         format!(
-                            "{:?} draws {} from the insurance fund when the fund is rich; with the fund holding exactly {} it failed: {}",
-                            a, needed, needed, o_exact.err
+                            "{:?}: with the insurance fund holding exactly the shortfall {} it failed: {}",
+                            a, needed, o_exact.err
                         ),
                     );
                 }
@@ -1231,6 +1260,7 @@ pub fn run_c07(tier: Tier) -> i32 {
     seeds.push(seed_funding_exceeds_margin());
     seeds.push(seed_same_block_cascade());
     seeds.push(seed_vault_drained());
+    seeds.push(seed_vault_drained_shorts());
     seeds.push(vec![Act::blk(15), Act::open("alice", true, SIZE_L.0, SIZE_L.1), Act::open("bob", true, SIZE_L.0, SIZE_L.1)]);
     let alpha = liq_alpha(false);
     let mut exps = vec![];
